@@ -2724,14 +2724,15 @@ def inlined_only(fn, helpers, ref_fn=None):
         if len(keep) != len(body):
             setattr(owner, fld, keep or [ast.Pass()])
     expand_star_tuples(f)
-    # local aliases of existing objects (`cands = table[key]`) are written out, so that rules anchored on `table[key].remove(...)`
-    # still see their constructs
+    # temporaries and local aliases under names the reference function does not use (`cands = table[key]`, `n_inf = len(I)`)
+    # are written out (same propagation rules as in the canonical form), so that rules anchored on `table[key].remove(...)` or
+    # `I.append(len(infecteds))` still see their constructs
     known = {n.id for n in ast.walk(ref_fn) if isinstance(n, ast.Name)} if ref_fn is not None else set()
     fresh = {n.id for n in ast.walk(f) if isinstance(n, ast.Name) and isinstance(n.ctx, ast.Store)} - known
     _ALIAS[0] = alias_classes(f)
     try:
         for _ in range(3):
-            if not fresh or not propagate(f, only_paths=True, only_names=fresh):
+            if not fresh or not propagate(f, only_names=fresh):
                 break
     finally:
         _ALIAS[0] = {}
